@@ -269,13 +269,30 @@ def check(res):
         if not isinstance(fn, ast.FunctionDef):
             raise AnalysisError("anchor vanished: _Tree.%s" % mname)
         mark = None
+        defs1 = {}
+        for a in ast.walk(fn):
+            if isinstance(a, ast.Assign) and len(a.targets) == 1 and isinstance(a.targets[0], ast.Name):
+                defs1.setdefault(a.targets[0].id, []).append(a.value)
+
+        def named(t, depth=0):
+            """a test given as a local that names the condition"""
+            if isinstance(t, ast.Name) and len(defs1.get(t.id, ())) == 1 and depth < 3:
+                return named(defs1[t.id][0], depth + 1)
+            if isinstance(t, ast.BoolOp) and isinstance(t.op, ast.And):
+                vals = []
+                for v in t.values:
+                    r = named(v, depth + 1)
+                    vals.extend(r.values if isinstance(r, ast.BoolOp) and isinstance(r.op, ast.And) else [r])
+                return ast.BoolOp(op=ast.And(), values=vals)
+            return t
         for n in ast.walk(fn):
+            test = named(n.test) if isinstance(n, ast.If) else None
             if isinstance(n, ast.If) and any(
                     isinstance(x, ast.Attribute) and x.attr == "_p_oid"
-                    for x in ast.walk(n.test)):
+                    for x in ast.walk(test)):
                 regs = [e for b in n.body for e in _events(b, set(), set()) if e[0] == "R"]
                 if regs:
-                    mark = set(_atom(c) for c in _conj(n.test))
+                    mark = set(_atom(c) for c in _conj(test))
                     line = n.lineno
         res.count("PY-EMBEDDED-LEAF", 1)
         if mark is None:
